@@ -7,7 +7,9 @@ import (
 // ExtraKinds names the kinds of well-formed unknown fields ExtraField can build.
 var ExtraKinds = []string{"zero", "byte", "short", "int", "long", "float", "double", "string1-empty", "string1", "string1-255", "string4-256", "string4-64k",
 	"map-empty", "map-str-int", "map-nested", "list-empty", "list-mixed-ints", "list-structs", "list-nested-6", "simplelist-empty", "simplelist-300",
-	"struct-empty", "struct-all-kinds", "struct-nested-6", "struct-ext-tags"}
+	"struct-empty", "struct-all-kinds", "struct-nested-6", "struct-ext-tags",
+	// wide rather than deep: more sibling containers than any nesting bound
+	"list-1500-lists", "list-1500-maps", "list-1500-structs", "map-1500-lists"}
 
 // ExtraField builds one well-formed field of the given kind under tag.
 func ExtraField(kind string, tag int, r *rand.Rand) []byte {
@@ -98,6 +100,38 @@ func ExtraField(kind string, tag int, r *rand.Rand) []byte {
 		return AppendHead(b, TStructEnd, 0)
 	case "struct-nested-6":
 		return nestedStruct(tag, 6)
+	case "list-1500-lists", "list-1500-maps", "list-1500-structs":
+		b = AppendHead(b, TList, tag)
+		b = AppendInt(b, 1500, 0)
+		for i := 0; i < 1500; i++ {
+			switch kind {
+			case "list-1500-lists":
+				b = AppendHead(b, TList, 0)
+				b = AppendInt(b, 1, 0)
+				b = AppendInt(b, int64(i), 0)
+			case "list-1500-maps":
+				b = AppendHead(b, TMap, 0)
+				b = AppendInt(b, 1, 0)
+				b = AppendInt(b, int64(i), 0)
+				b = AppendString(b, []byte("v"), 1)
+			default:
+				b = AppendHead(b, TStructBegin, 0)
+				b = AppendInt(b, int64(i), 0)
+				b = AppendHead(b, TStructEnd, 0)
+			}
+		}
+		return b
+	case "map-1500-lists":
+		b = AppendHead(b, TMap, tag)
+		b = AppendInt(b, 1500, 0)
+		for i := 0; i < 1500; i++ {
+			b = AppendInt(b, int64(i), 0)
+			b = AppendHead(b, TList, 1)
+			b = AppendInt(b, 2, 0)
+			b = AppendInt(b, 7, 0)
+			b = AppendInt(b, 70000, 0)
+		}
+		return b
 	case "struct-ext-tags":
 		b = AppendHead(b, TStructBegin, tag)
 		for _, t := range []int{14, 15, 16, 200, 255} {
